@@ -173,7 +173,8 @@ def second_scan(ctx, per_class, nkeys):
 def hyp_pvv(ctx, n):
     refcrypto.selftest()
     digits = lambda lo, hi: uniform(lo, hi).flatmap(lambda k: st.text(alphabet=DEC, min_size=k, max_size=k))
-    keys = st.sampled_from([8, 16, 24]).flatmap(lambda k: st.binary(min_size=k, max_size=k)).map(bytes.hex)
+    keys = st.sampled_from([8, 16, 24]).flatmap(lambda k: st.binary(min_size=k, max_size=k)).flatmap(
+        lambda b: st.sampled_from([b.hex(), b.hex(), b.hex().upper()]))
 
     def body(v):
         pin, pan, index, key_hex = v
@@ -194,7 +195,8 @@ def hyp_keys(ctx, n):
     part = st.binary(min_size=16, max_size=16).flatmap(lambda b: st.sampled_from([b.hex(), b.hex().upper()]))
     parts = st.lists(st.one_of(part, st.sampled_from(['00' * 16, 'ff' * 16, '6D6BE51F04F76167491554FE25F7ABEF'])), min_size=1, max_size=5)
     master = st.one_of(st.sampled_from(['00' * 16, '0123456789abcdeffedcba9876543210']),
-                       st.sampled_from([16, 24]).flatmap(lambda k: st.binary(min_size=k, max_size=k)).map(bytes.hex))
+                       st.sampled_from([16, 24]).flatmap(lambda k: st.binary(min_size=k, max_size=k)).flatmap(
+                           lambda b: st.sampled_from([b.hex(), b.hex().upper()])))
 
     def body(v):
         ps, mk, kb, kl = v
